@@ -53,7 +53,10 @@ def generate(r, tier):
     slots = {o[1] for o in sc["prefix"] if o[0] in ("save", "restart")}
     tgt = sc["prog2"] or prog
     sc["used"] = ops.gen_history(r, tgt, r.randint(1, 6), weights={"read": 3, "save": 0, "load": 8 if slots else 0, "restart": 0}, sane=0.9,
-                                 presaved=slots) if r.random() < 0.35 else []
+                                 presaved=slots) if r.random() < 0.45 else []
+    for o in sc["used"]:
+        if o[0] == "load" and r.random() < 0.5:
+            o[2] = 0  # a merge: under policy sdkconfig stale default-marked entries of the slot get injected for the session
     sc["edits"] = ops.gen_history(r, tgt, r.randint(0, 8), weights={"edge": 20, "read": 4, "save": 0, "load": 0, "restart": 0}, sane=0.85)
     return sc
 
@@ -206,9 +209,18 @@ def execute(sc, ctx):
             n.k.load_config(path, replace=True)
 
     A, B = boot(), boot()
+    # A load must not depend on what happened to be cached before it: a third node gets the same used history, then
+    # everything is read in the warm node (all caches filled) and everything is dropped in the cold one; both load F.
+    C = boot() if sc["used"] else None
+    if C is not None:
+        ops.view(A.k)
+        with simproc.quiet():
+            C.k._invalidate_all()
     try:
         load(A, F)
         load(B, Fm)
+        if C is not None:
+            load(C, F)
     except Exception as e:
         import traceback
 
@@ -245,6 +257,16 @@ def execute(sc, ctx):
             return False
         return True
 
+    if C is not None:
+        ctx.counters["probe:warm-vs-cold-load"] += 1
+        va, vc = ops.view(kA), ops.view(C.k)
+        ra = sorted(map(str, kA.report.area_to_instance[core.DefaultValuesArea].changed_defaults))
+        rc = sorted(map(str, C.k.report.area_to_instance[core.DefaultValuesArea].changed_defaults))
+        ia, ic = sorted(ops.injected(kA)), sorted(ops.injected(C.k))
+        if va != vc or ia != ic:
+            ctx.violate(f"C08/load-depends-on-cached-state/{stage if False else ('upgrade' if upgrade else 'same-tree')}",
+                        f"loading F into the used instance gives another result when everything was read before than when all caches "
+                        f"were dropped before: {ops.diff_views(va, vc)} injected {ia} vs {ic} records {ra[:3]} vs {rc[:3]}")
     twin_expected = (not upgrade) or policy == "kconfig"
     if twin_expected:
         compare("after load")
